@@ -319,13 +319,21 @@ def near_copy(draw, t):
             pool = CMP if node[1] in CMP else ["+", "-", "*", "/"]
             new = ("bin", draw(st.sampled_from([o for o in pool if o != node[1]])), node[2], node[3])
     elif k == "num":
-        new = ("num", draw(st.sampled_from([n for n in NUMS if n != node[1]])))
+        # another literal; for some numbers also the literal of another type that compares equal in Python
+        twins = {"1": [("py", "True"), ("num", "1.0")], "3": [("num", "3.0")], "3.0": [("num", "3")], "2": [("num", "2.0")], "0.5": [("num", ".50")]}
+        if node[1] in twins and draw(st.booleans()):
+            new = draw(st.sampled_from(twins[node[1]]))
+        else:
+            new = ("num", draw(st.sampled_from([n for n in NUMS if n != node[1]])))
     elif k == "col":
         new = ("col", draw(st.sampled_from([c for c in ("x", "z", "w") if c != node[1]])))
     elif k == "str":
         new = ("str", draw(st.sampled_from([x for x in STRINGS if x != node[1]])))
     elif k == "py":
-        new = ("py", draw(st.sampled_from([x for x in ("True", "False", "None") if x != node[1]])))
+        if node[1] in ("True", "False") and draw(st.booleans()):
+            new = ("num", "1" if node[1] == "True" else "0")  # equal in Python, another literal
+        else:
+            new = ("py", draw(st.sampled_from([x for x in ("True", "False", "None") if x != node[1]])))
     elif k == "un":
         new = node[2]
     else:
@@ -434,22 +442,67 @@ def judge(ctx, case):
             py_value(otext, Recorder())
         except Exception:  # pylint: disable=broad-except
             return
-        try:
-            with core.Guard():
-                two = lib_design(f"y ~ 0 + {w}({render(t, None)}) + {w}({otext})", Recorder())
-        except Exception as e:  # pylint: disable=broad-except
-            ctx.reject(e)
-            return
-        if len(two.common.terms) != 2:
-            ctx.fail("name", dict(full, other_text=otext), f"different calls {w}({render(t, None)}) and {w}({otext}) are one term: {list(two.common.terms)}", "different_calls")
+        for first, second in ((render(t, None), otext), (otext, render(t, None))):
+            try:
+                with core.Guard():
+                    two = lib_design(f"y ~ 0 + {w}({first}) + {w}({second})", Recorder())
+            except Exception as e:  # pylint: disable=broad-except
+                ctx.reject(e)
+                return
+            if len(two.common.terms) != 2:
+                ctx.fail("name", dict(full, other_text=otext), f"different calls {w}({first}) and {w}({second}) are one term: {list(two.common.terms)}", "different_calls")
+                break
 
 
 def replay(ctx, case):
     judge(ctx, case)
 
 
+def _grp(n):
+    """An operand that the text shows in parentheses (left operands of ** are parenthesised by the renderer)."""
+    return n if n[0] in ("col", "num", "str", "py", "par", "call") else ("par", n)
+
+
+def as_library_reads(t):
+    """The tree the recorded deviation KF-C12-1 makes of `t`: inside call arguments a unary sign binds tighter than **
+    and ** associates to the left (everything else as in Python)."""
+    if not isinstance(t, tuple) or not t or t[0] in ("col", "num", "str", "py"):
+        return t
+    k = t[0]
+    if k == "par":
+        return ("par", as_library_reads(t[1]))
+    if k == "call":
+        return ("call", t[1], tuple(as_library_reads(a) for a in t[2]), tuple((kw[0], as_library_reads(kw[1])) for kw in t[3]))
+    if k == "un":
+        inner = t[2]
+        if inner[0] == "bin" and inner[1] == "**":  # -a ** b  is read as  (-a) ** b
+            return as_library_reads(("bin", "**", ("par", ("un", t[1], _grp(inner[2]))), inner[3]))
+        return ("un", t[1], as_library_reads(inner))
+    if k == "bin":
+        if t[1] == "**":
+            right = t[3]
+            if right[0] == "un" and right[2][0] == "bin" and right[2][1] == "**":  # a ** -b ** c  is read as  (a ** -b) ** c
+                right = ("bin", "**", ("par", ("un", right[1], _grp(right[2][2]))), right[2][3])
+            if right[0] == "bin" and right[1] == "**":  # a ** b ** c  is read as  (a ** b) ** c
+                return as_library_reads(("bin", "**", ("par", ("bin", "**", t[2], _grp(right[2]))), right[3]))
+            return ("bin", "**", as_library_reads(t[2]), as_library_reads(right))
+        return ("bin", t[1], as_library_reads(t[2]), as_library_reads(t[3]))
+    return t
+
+
 def _kf_pow(case, clause, detail):  # pylint: disable=unused-argument
-    return bool(case.get("pitfall"))
+    """A case of the class (unary sign on, or chain of, unparenthesised **) whose column is exactly what the recorded
+    reading gives; any other value for such an expression is reported."""
+    if not case.get("pitfall"):
+        return False
+    try:
+        t = _tup(case["tree"])
+        want = np.asarray(py_value(render(as_library_reads(t), None), Recorder()), dtype=float)
+        with core.Guard():
+            got = np.asarray(lib_design(case["formula"], Recorder()).common.design_matrix, dtype=float)
+        return got.shape == (N, 1) and bool(np.allclose(got[:, 0], want, rtol=1e-12, atol=0, equal_nan=True))
+    except Exception:  # pylint: disable=broad-except
+        return False
 
 
 KNOWN_CLASSES = {"unary_or_chained_power": _kf_pow}
